@@ -5,6 +5,12 @@ import PyYetiVerif.Props.C01Unique
 import PyYetiVerif.Props.C01Coupled
 import PyYetiVerif.Props.C01Delconj
 import PyYetiVerif.Props.C01Exp
+import PyYetiVerif.Props.C01Exp1
+import PyYetiVerif.Props.C01Rb
+import PyYetiVerif.Props.C01StaticC
+import PyYetiVerif.Props.C01PreEig
+import PyYetiVerif.Props.C01Cuts
+import PyYetiVerif.Props.C01CplxUnc
 #print axioms PyYetiVerif.C01.su_solves_ode_under
 #print axioms PyYetiVerif.C01.su_solves_ode_over
 #print axioms PyYetiVerif.C01.su_solves_ode_crit
@@ -47,3 +53,35 @@ import PyYetiVerif.Props.C01Exp
 #print axioms PyYetiVerif.C01.exp2_step_exact
 #print axioms PyYetiVerif.C01.exp2_run_exact
 #print axioms PyYetiVerif.C01.freeA_spec
+#print axioms PyYetiVerif.C01.exp1_step_exact
+#print axioms PyYetiVerif.C01.exp1_run_exact
+#print axioms PyYetiVerif.C01.exp1_history_not_converted
+#print axioms PyYetiVerif.C01.exp1_velo_is_derivative
+#print axioms PyYetiVerif.C01.exp1_init
+#print axioms PyYetiVerif.C01.zeroA_spec
+#print axioms PyYetiVerif.C01.rb_step_is_rigid_regime
+#print axioms PyYetiVerif.C01.rb_step_exact
+#print axioms PyYetiVerif.C01.rb_run_is_runUnc
+#print axioms PyYetiVerif.C01.rb_run_exact
+#print axioms PyYetiVerif.C01.lin_solve_spec
+#print axioms PyYetiVerif.C01.mass_solve_spec
+#print axioms PyYetiVerif.C01.static_ic_coupled_is_equilibrium
+#print axioms PyYetiVerif.C01.static_ic_coupled_accel_zero
+#print axioms PyYetiVerif.C01.accel_coupled_eom
+#print axioms PyYetiVerif.C01.pre_eig_solution_is_solution
+#print axioms PyYetiVerif.C01.pre_eig_mass_forms_agree
+#print axioms PyYetiVerif.C01.pre_eig_damping_forms_agree
+#print axioms PyYetiVerif.C01.pre_eig_ic_consistent
+#print axioms PyYetiVerif.C01.pre_eig_ic_is_phiT_M
+#print axioms PyYetiVerif.C01.pre_eig_first_sample
+#print axioms PyYetiVerif.C01.cuts_as_documented
+#print axioms PyYetiVerif.C01.crit_regimes_partition
+#print axioms PyYetiVerif.C01.classify_elastic_spec
+#print axioms PyYetiVerif.C01.classify_rb_spec
+#print axioms PyYetiVerif.C01.classify_auto_rb_iff
+#print axioms PyYetiVerif.C01.complex_unc_rb_row_is_undamped
+#print axioms PyYetiVerif.C01.isSol_unit_mass_scale
+#print axioms PyYetiVerif.C01.complex_unc_rb_exact_partial
+#print axioms PyYetiVerif.C01.complex_unc_damped_rb_counterexample
+#print axioms PyYetiVerif.C01.complex_recovery_real_part
+#print axioms PyYetiVerif.C01.complex_dtype_real_system_response_is_real
